@@ -795,6 +795,8 @@ func main() {
 				c.caseFind(v, f[1] == "1", f[2] == "1", mts, extra, "replay")
 			case len(f) == 1 && f[0] == "e2e":
 				c.runE2E()
+			case len(f) == 2 && f[0] == "header":
+				headerOracle(rep)
 			case len(f) == 2 && f[0] == "mmapq":
 				if b, err := hex.DecodeString(f[1]); err == nil {
 					c.caseMapping(string(b))
@@ -815,5 +817,8 @@ func main() {
 	rep.AddOracle(c.find)
 	rep.AddOracle(c.uni)
 	rep.AddOracle(c.e2e)
+	if o.Replay == "" {
+		headerOracle(rep)
+	}
 	rep.Write(o.Out)
 }
